@@ -71,6 +71,14 @@ class RefServer:
         return rep
 
     def _apply(self, cmd):
+        if cmd.get("verb") == b"mg" and cmd.get("error") == "unknown command":
+            # the one meta command the repository's integration tests use: "mg <key> t" -> remaining ttl (-1: never expires)
+            toks = cmd["raw"].split()
+            it = self._live(toks[1]) if len(toks) >= 2 else None
+            if it is None:
+                return b"EN\r\n"
+            ttl = -1 if it.exp == 0 else max(0, it.exp - self.now())
+            return b"HD t%d\r\n" % ttl if b"t" in toks[2:] else b"HD\r\n"
         if "error" in cmd:
             if cmd["error"] in ("unknown command", "empty line", "bad get", "bad token count"):
                 return b"ERROR\r\n"
